@@ -358,10 +358,22 @@ func (g *G) callable(t Ty) []*Func {
 			if f.NonDet && !g.F.NonDet {
 				continue
 			}
+			if g.loops > 0 && hasFnArrParam(f) {
+				continue // a function literal inside a counted loop body is a recorded C05 finding
+			}
 			out = append(out, f)
 		}
 	}
 	return out
+}
+
+func hasFnArrParam(f *Func) bool {
+	for _, p := range f.Params {
+		if p.Ty == TFnArr {
+			return true
+		}
+	}
+	return false
 }
 
 func (g *G) Call(f *Func, d int) string {
